@@ -508,3 +508,30 @@ Check best_only_complete :
           then Ok ([Unreach (c_dest c) 0], em_mark_withdrawn e (c_dest c) 0)
           else Ok ([], e)).
 Print Assumptions best_only_complete.
+
+(* Histories.  Whatever sequence of changes a neighbour's task processes
+   (run_changes: handle_prefix_update / the initial dump / route refresh all feed
+   process_nlri_change with the same ExportMap), from any export map, with any export
+   policy: every entry of the Adj-RIB-In the neighbour builds from the messages was
+   put there by an advertisement that respects the three "never" rules, and towards an
+   eBGP peer no entry carries LOCAL_PREF / ORIGINATOR_ID / CLUSTER_LIST / AIGP. *)
+Theorem history_view_allowed :
+  forall x pol emax raddr cid cs e r d pid v,
+    run_changes x pol emax raddr cid cs e = Ok r ->
+    view_after (fst r) d pid None = Some v ->
+    exists nh s, In (Reach d pid nh v s) (fst r)
+      /\ ~ learned_from s raddr
+      /\ ~ crosses_rs_boundary s (x_role x)
+      /\ (x_role x = Ibgp -> ~ nonclient_ibgp_source s)
+      /\ (x_role x = Ebgp -> ebgp_strips_ok v).
+Proof. exact C09_history_view_allowed. Qed.
+Check history_view_allowed :
+  forall x pol emax raddr cid cs e r d pid v,
+    run_changes x pol emax raddr cid cs e = Ok r ->
+    view_after (fst r) d pid None = Some v ->
+    exists nh s, In (Reach d pid nh v s) (fst r)
+      /\ ~ learned_from s raddr
+      /\ ~ crosses_rs_boundary s (x_role x)
+      /\ (x_role x = Ibgp -> ~ nonclient_ibgp_source s)
+      /\ (x_role x = Ebgp -> ebgp_strips_ok v).
+Print Assumptions history_view_allowed.
